@@ -136,6 +136,17 @@ class CallMixin:
             for t in ts[1:]:
                 r = z3.If(t < r, t, r) if is_min else z3.If(t > r, t, r)
             return SV(r, ty)
+        if isinstance(seq.ty, T.Union):
+            cands = [(tag, aty) for tag, aty in seq.ty.alts.items() if isinstance(aty, (T.Tup, T.Seq))]
+            if len(cands) == 1:
+                self.check(st, seq.ty.is_(cands[0][0], seq.t), "TypeError(min/max of a non-iterable)", node)
+                seq = SV(seq.ty.proj(cands[0][0], seq.t), cands[0][1])
+        if isinstance(seq.ty, T.Tup) and seq.ty.items and all(t == T.Int for t in seq.ty.items):
+            r = seq.ty.get(seq.t, 0)
+            for k in range(1, len(seq.ty.items)):
+                t = seq.ty.get(seq.t, k)
+                r = z3.If(t < r, t, r) if is_min else z3.If(t > r, t, r)
+            return SV(r, T.Int)
         if not isinstance(seq.ty, T.Seq) or seq.ty.elem != T.Int:
             raise Unsupported("min/max of non-int sequence")
         n = seq.ty.len(seq.t)
@@ -507,15 +518,19 @@ class CallMixin:
             dom, val = ty.dom(base.t), ty.valarr(base.t)
             if meth == "get":
                 k = self.ev(node.args[0], st, ty.key)
+                present = z3.Select(dom, k.t)
+                if isinstance(ty.val, T.U) and ty.val.name in self.nullable_sorts:
+                    # the stored object may itself be None: `m.get(k)` is then None although k is present
+                    present = z3.And(present, z3.Not(self.pynone(SV(z3.Select(val, k.t), ty.val))))
                 if len(node.args) > 1:
                     d = self.ev(node.args[1], st)
                     if isinstance(d.ty, T.TNone):
                         o = T.Opt(ty.val)
-                        return SV(z3.If(z3.Select(dom, k.t), o.some(z3.Select(val, k.t)), o.none()), o)
+                        return SV(z3.If(present, o.some(z3.Select(val, k.t)), o.none()), o)
                     d = self.coerce(d, ty.val)
                     return SV(z3.If(z3.Select(dom, k.t), z3.Select(val, k.t), d.t), ty.val)
                 o = T.Opt(ty.val)
-                return SV(z3.If(z3.Select(dom, k.t), o.some(z3.Select(val, k.t)), o.none()), o)
+                return SV(z3.If(present, o.some(z3.Select(val, k.t)), o.none()), o)
             if meth == "keys":
                 return SV(dom, T.Set(ty.key))
             if meth == "pop":
@@ -606,29 +621,42 @@ class CallMixin:
             with self.spec():
                 cond = self.truthy(self.ev(_parse(src), cs))
             self.emit(st, self._guard(cond), "call-pre", node, f"{c.name}:{label}")
-            st.assume(self._guard(cond))
+            self.assume_q(st, self._guard(cond))
         pre = dict(callee)
         post = dict(callee)
         for fr in c.frame:
             post[fr] = fresh(callee[fr].ty, fr + "_post")
         # exceptional exits
+        inq = bool(self.qscope)
+        if inq and c.frame:
+            raise Unsupported(f"call of {c.qualname} (which modifies {c.frame}) inside a comprehension")
         for exc, when, _label in c.raises:
             ws = State_from(st, pre)
             with self.spec():
                 cnd = self.truthy(self.ev(_parse(when), ws))
             rs = st.copy()
-            rs.assume(cnd)
+            if inq:
+                # the comprehension raises if SOME iteration does (the bound variables act as the witness);
+                # it continues only if NO iteration does
+                rs.assume(z3.And(*[g for _, g in self.qscope], cnd))
+            else:
+                rs.assume(cnd)
             self.pending_raises.append(Outcome("raise", rs, None, exc))
-            st.assume(z3.Not(cnd))
+            self.assume_q(st, z3.Not(cnd))
         ps = State_from(st, post)
         ps.old = pre
-        res = fresh(c.returns, "ret_" + c.name) if c.returns is not None else SV(T.NoneT.value(), T.NoneT)
+        if c.returns is None:
+            res = SV(T.NoneT.value(), T.NoneT)
+        elif inq:
+            res = SV(self.fresh_q(c.returns.sort(), "ret_" + c.name), c.returns)  # one result per iteration
+        else:
+            res = fresh(c.returns, "ret_" + c.name)
         saved = self.result_sv
         self.result_sv = res
         try:
             for label, src in c.ensures:
                 with self.spec():
-                    st.assume(self.truthy(self.ev(_parse(src), ps)))
+                    self.assume_q(st, self.truthy(self.ev(_parse(src), ps)), res.t if inq and c.returns is not None else None)
         finally:
             self.result_sv = saved
         for fr in c.frame:
